@@ -289,6 +289,12 @@ func buildJoinEvent(cs *Case, rng *rand.Rand, ln *Line) {
 		}
 		ms = append(ms, member{"drop", jsonStr(d, 0)})
 	}
+	if ln.HasSvc {
+		ms = append(ms, member{"svc", jsonStr(ln.Svc, 0)})
+	}
+	if ln.HasLvl {
+		ms = append(ms, member{"lvl", jsonStr(ln.Lvl, 0)})
+	}
 	path := strings.Split(cs.Field, ".")
 	if ln.HasField {
 		v := jsonStr(ln.Value, style)
@@ -358,6 +364,9 @@ func weighted(rng *rand.Rand, w ...int) int {
 // source are interleaved like the lines of one file).
 func genLines(cs *Case) [][]*Line {
 	rng := rand.New(rand.NewSource(cs.Seed))
+	// the draws for match conditions and run shapes come from a stream of their
+	// own: a case without them is the same case as before they existed
+	rngM := rand.New(rand.NewSource(cs.Seed ^ 0x6d617463685f3135))
 	names := streamNames(cs)
 	out := make([][]*Line, cs.Sources)
 	for s := 0; s < cs.Sources; s++ {
@@ -374,6 +383,8 @@ func genLines(cs *Case) [][]*Line {
 				continue
 			}
 			burst := 0 // remaining lines of a forced long run
+			sh := newShaper(cs, rngM)
+			inRun := false // nominally inside a run (only used to place non-matching events)
 			for i := 0; i < n; i++ {
 				ln := &Line{Src: src, Stream: name, Idx: i, ID: idOf(src, lab, i), HasField: true}
 				class := weighted(rng, cs.WStart, cs.WCont, cs.WOther, cs.WMissing, cs.WEmpty)
@@ -383,6 +394,7 @@ func genLines(cs *Case) [][]*Line {
 				} else if class == 0 && rng.Intn(12) == 0 {
 					burst = 10 + rng.Intn(60)
 				}
+				class = sh.class(class)
 				switch class {
 				case 3:
 					ln.HasField = false
@@ -390,15 +402,31 @@ func genLines(cs *Case) [][]*Line {
 					ln.Value = ""
 				default:
 					ln.Value = genJoinValue(cs, rng, class, tagOf(src, lab, i))
+					ln.Value = sh.value(cs, ln.Value, class, i)
 				}
 				if cs.PreDiscard && rng.Intn(6) == 0 {
 					ln.Drop = true
 				}
+				if cs.Match != "" {
+					// events that do not satisfy the match conditions of the action: anywhere,
+					// and more often right inside a (nominal) run
+					pct := cs.NoMatchPct
+					if inRun {
+						pct += 10
+					}
+					ln.NoMatch = rngM.Intn(100) < pct
+					drawMatchMembers(cs, rngM, ln)
+				}
+				inRun = class == 0 || (inRun && class == 1)
 				buildJoinEvent(cs, rng, ln)
 				per[si] = append(per[si], ln)
 			}
 			// sentinel: an event without the field closes the last run
 			ln := &Line{Src: src, Stream: name, Idx: n, ID: idOf(src, lab, n), Sentinel: true}
+			if cs.Match != "" {
+				ln.NoMatch = rngM.Intn(100) < cs.NoMatchPct
+				drawMatchMembers(cs, rngM, ln)
+			}
 			buildJoinEvent(cs, rng, ln)
 			per[si] = append(per[si], ln)
 		}
@@ -705,5 +733,73 @@ func genCase(rng *rand.Rand, seed int64, kind string, i int) Case {
 		nStreams = 1
 	}
 	cs.Capacity = 2*cs.Sources*nStreams + 8 + rng.Intn(32)
+	// dimensions added later draw from a stream of their own (the cases above
+	// stay what they were): how long the output holds an event, match conditions
+	// on the joining action, run shapes
+	rx := rand.New(rand.NewSource(seed ^ 0x6f75745f686f6c64))
+	cs.OutHold = []int{0, 1, 2, 3, 5, 8, 16, 32}[rx.Intn(8)]
+	cs.OutBatch = cs.OutHold > 0 && rx.Intn(3) == 0
+	if kind != "k8s" {
+		if rx.Intn(3) == 0 {
+			cs.Match = matchModes[rx.Intn(len(matchModes))]
+			cs.NoMatchPct = 5 + rx.Intn(20)
+		}
+		switch rx.Intn(4) {
+		case 0:
+			cs.RunShape = "equal"
+		case 1:
+			cs.RunShape = "saw"
+		}
+		if cs.RunShape != "" {
+			cs.ShapeLen = []int{40, 64, 100, 200, 600}[rx.Intn(5)]
+		}
+	}
+	return cs
+}
+
+// genMatchCase: join / join_template with match conditions on the action and
+// events that do not satisfy them in the middle of runs, on several sources
+// and streams served by FEW processors: exactly one (j%3 == 0), two (j%3 == 1),
+// or as drawn. One processor that waits for the next line of a run cannot serve
+// any other stream, so with the long time-out the pool holds the whole input
+// (nothing ever stalls, no time-out may be seen); with a short time-out a
+// stalled stream is released by its time-out (a justified split).
+func genMatchCase(rng *rand.Rand, seed int64, kind string, j int) Case {
+	cs := genCase(rng, seed, kind, j)
+	cs.Name = fmt.Sprintf("%s-match-%d", kind, j)
+	rx := rand.New(rand.NewSource(seed ^ 0x6d617463682d6a))
+	cs.Match = matchModes[j%len(matchModes)]
+	cs.NoMatchPct = 8 + rx.Intn(20)
+	cs.Sources = 2 + rx.Intn(2)
+	cs.Streams = rx.Intn(3)
+	cs.Feeders = 1 + rx.Intn(2)
+	cs.PerStream = 20 + rx.Intn(50)
+	cs.SingleProc = false
+	switch j % 3 {
+	case 0:
+		cs.SingleProc = true
+	case 1:
+		cs.Procs = 1
+	}
+	if cs.OutHold == 0 && rx.Intn(2) == 0 {
+		cs.OutHold = 2 + rx.Intn(8)
+	}
+	if j%2 == 1 {
+		cs.EventTimeoutMs = []int{100, 200, 300}[rx.Intn(3)]
+		cs.Pauses = 3 + rx.Intn(3)
+	} else {
+		cs.EventTimeoutMs, cs.Pauses = 30000, 0
+	}
+	nStreams := cs.Streams
+	if nStreams == 0 {
+		nStreams = 1
+	}
+	total := cs.Sources * nStreams * (cs.PerStream*3/2 + 2)
+	switch {
+	case cs.EventTimeoutMs >= 1000:
+		cs.Capacity = total + 16
+	default:
+		cs.Capacity = total/3 + 32 + rx.Intn(64)
+	}
 	return cs
 }
